@@ -288,14 +288,19 @@ impl Ord for NInt {
         }
     }
 }
+// An integer hashes the same way in either representation (and wherever else it occurs: see
+// NNum::total_hash).
+pub fn hash_bigint<H: Hasher>(a: &BigInt, state: &mut H) {
+    match a.to_i64() {
+        Some(a) => state.write_i64(a),
+        None => a.hash(state),
+    }
+}
 impl Hash for NInt {
     fn hash<H: Hasher>(&self, state: &mut H) {
         match self {
             NInt::Small(a) => state.write_i64(*a),
-            NInt::Big(a) => match a.to_i64() {
-                Some(a) => state.write_i64(a),
-                None => a.hash(state),
-            },
+            NInt::Big(a) => hash_bigint(a, state),
         }
     }
 }
